@@ -842,3 +842,122 @@ def enum_tables(check: Check, repo: Repo) -> None:
                     check.ob(rule, c, f"{nm.value} covers {enum_cls}", keys == members,
                              f"{len(keys)} names" if keys == members else f"missing {sorted(members - keys)} extra {sorted(keys - members)}")
     check.floor(rule, 20, "introspection enum entries")
+
+
+# -- C19 ------------------------------------------------------------------------------------------
+
+
+def _nested(fn_root: ast.AST, name: str) -> ast.AST | None:
+    for n in ast.walk(fn_root):
+        if isinstance(n, FuncDef) and n.name == name:
+            return n
+    return None
+
+
+def _norm(node: ast.AST, subst: dict[str, str]) -> str:
+    txt = unparse(node)
+    for a, b in subst.items():
+        txt = txt.replace(a, b)
+    return " ".join(txt.split())
+
+
+def extend_build_agree(check: Check, repo: Repo) -> None:
+    rule = "EXTEND-BUILD-AGREE"
+    check.rule(
+        rule,
+        "extending equals building: for every type kind the mapper used by extend_schema (existing config + "
+        "extension nodes) and the `case` of build_named_type (definition + extension nodes) fold the "
+        "extension nodes through the same build_* helpers and, for scalars, the same specifiedBy fold "
+        "expression; object_mapper and interface_mapper are equal modulo the kind name",
+    )
+    mod = repo.mod("utilities.extend_schema")
+    root = mod.tree
+    bn = _nested(root, "build_named_type")
+    if bn is None:
+        raise AnalysisError("build_named_type missing")
+    cases = {}
+    for m in walk_body(bn):
+        if isinstance(m, ast.Match):
+            for c in m.cases:
+                if isinstance(c.pattern, ast.MatchClass):
+                    cases[unparse(c.pattern.cls)] = c
+    kinds = {
+        "object": ("object_mapper", "ObjectTypeDefinitionNode"), "interface": ("interface_mapper", "InterfaceTypeDefinitionNode"),
+        "enum": ("enum_mapper", "EnumTypeDefinitionNode"), "union": ("union_mapper", "UnionTypeDefinitionNode"),
+        "input_object": ("input_object_mapper", "InputObjectTypeDefinitionNode"), "scalar": ("scalar_mapper", "ScalarTypeDefinitionNode"),
+    }
+
+    def helpers(node: ast.AST) -> set[str]:
+        return {call_name(c) for c in ast.walk(node) if isinstance(c, ast.Call) and call_name(c).startswith(("build_", "get_specified_by_url", "is_one_of"))
+                and call_name(c) not in ("build_named_type",)}
+
+    for kind, (mapper_name, node_cls) in kinds.items():
+        mp = _nested(root, mapper_name)
+        case = cases.get(node_cls)
+        if mp is None or case is None:
+            check.ob(rule, bn, f"{kind}: mapper and build case exist", False, f"mapper {mapper_name}: {mp is not None}; case {node_cls}: {case is not None}")
+            continue
+        hm = helpers(mp)
+        hb = helpers(ast.Module(body=case.body, type_ignores=[]))
+        hb_cmp = hb - {"is_one_of"}  # OneOf can only be declared on the definition
+        ok = hm == hb_cmp and bool(hm)
+        check.ob(rule, mp, f"{kind}: extension nodes folded through the same helpers", ok,
+                 f"{sorted(hm)}" if ok else f"extend path uses {sorted(hm)}, build path uses {sorted(hb_cmp)}")
+        if kind == "scalar":
+            def fold(node: ast.AST) -> list[str]:
+                return [_norm(s.value, {}) for l in ast.walk(node) if isinstance(l, ast.For) for s in l.body
+                        if isinstance(s, ast.Assign) and unparse(s.targets[0]) == "specified_by_url"]
+            fm, fb = fold(mp), fold(ast.Module(body=case.body, type_ignores=[]))
+            ok = fm == fb and len(fm) == 1
+            check.ob(rule, mp, "scalar: specifiedBy fold over the extension nodes", ok,
+                     fm[0] if ok else f"extend path folds {fm}, build path folds {fb}")
+    om, im = _nested(root, "object_mapper"), _nested(root, "interface_mapper")
+    if om is not None and im is not None:
+        a = _norm(ast.Module(body=om.body, type_ignores=[]), {".object[": ".KIND["})
+        b = _norm(ast.Module(body=im.body, type_ignores=[]), {".interface[": ".KIND["})
+        check.ob(rule, om, "object_mapper == interface_mapper modulo the kind", a == b, "identical after substitution" if a == b else "the two mappers differ")
+    # the mapper map covers every kind
+    sm = _nested(root, "schema_mapper")
+    if sm is None:
+        raise AnalysisError("schema_mapper missing")
+    bad = []
+    for nm in ast.walk(sm):
+        if isinstance(nm, ast.Name) and nm.id == "schema_extensions" and isinstance(nm.ctx, ast.Load):
+            p = parent(nm)
+            while p is not None and p is not sm:
+                if isinstance(p, (ast.IfExp, ast.If)) and "schema_def" in unparse(p.test):
+                    bad.append(nm)
+                p = parent(p)
+    uses = [n for n in ast.walk(sm) if isinstance(n, ast.Call) and call_name(n) == "get_operation_types"]
+    ok = not bad and any("schema_extensions" in unparse(u) for u in uses) and any("schema_def" in unparse(u) for u in uses)
+    check.ob(rule, sm, "schema_mapper incorporates the schema definition and, unconditionally, all schema extensions", ok,
+             f"{len(uses)} get_operation_types call(s)" if ok else "schema extensions are only used under a condition on schema_def (or not at all)")
+
+
+def cross_schema_identity(check: Check, repo: Repo) -> None:
+    rule = "CROSS-SCHEMA-IDENTITY"
+    check.rule(
+        rule,
+        "find_schema_changes compares elements of two different schema objects: types are compared by "
+        "name / printed form / class, never by object identity (`is`, is_equal_type, is_type_sub_type_of "
+        "on an old and a new value) - equal schemas built separately share no type objects",
+    )
+    mod = repo.mod("utilities.find_schema_changes")
+    n = 0
+    for c in ast.walk(mod.tree):
+        if isinstance(c, ast.Call) and call_name(c) in ("is_equal_type", "is_type_sub_type_of", "do_types_overlap"):
+            args = " ".join(unparse(a) for a in c.args)
+            mixes = "old" in args and "new" in args
+            n += 1
+            check.ob(rule, c, f"{node_text(c, 70)} in {qualname_of(c)}", not mixes,
+                     "same-schema comparison" if not mixes else "identity-based type comparison between an old-schema and a new-schema type")
+        if isinstance(c, ast.Compare) and len(c.ops) == 1 and isinstance(c.ops[0], (ast.Is, ast.IsNot)):
+            l, r = unparse(c.left), unparse(c.comparators[0])
+            if ("old" in l and "new" in r) or ("new" in l and "old" in r):
+                ok = l.endswith(".__class__") and r.endswith(".__class__")
+                n += 1
+                check.ob(rule, c, f"{unparse(c)} in {qualname_of(c)}", ok,
+                         "class comparison" if ok else "identity comparison between an old-schema and a new-schema object")
+    # type changes are detected through str()/name
+    strs = [c for c in ast.walk(mod.tree) if isinstance(c, ast.Compare) and "str(old" in unparse(c) and "str(new" in unparse(c)]
+    check.ob(rule, mod.tree.body[0], "type changes detected by printed form", len(strs) >= 4, f"{len(strs)} str(old.type) != str(new.type) comparisons")
